@@ -245,7 +245,7 @@ PROPS["C01"] = dict(
                "concatenation of the successful Put batches in lock order; every successful Get returns log[commit+delta] (>= base) and advances by one; "
                "per consumer the positions ever returned are exactly [start, high) and the pending window is commit..commit+delta-1. Tie: differential "
                "history acceptance of the real Buffer against the extracted model."
-               " Added after the statement audit (DESIGN 5b): schedules with an arbitrary cleaner function at every cleaner run (grun), creation base, first-occurrence order, re-read only after Rollback.",
+               " Added after the statement audit (DESIGN 5b): schedules with an arbitrary cleaner function at every cleaner run (grun), creation base, first-occurrence order, re-read only after Rollback. Source tie (DESIGN 4.4b): Buffer.get and Buffer.commit are translated from the current buffer.go on every run and proved equal to the model's get_attempt / OCommit step for every state and argument (C01_get/commit_source_is_spec/_is_model).",
     level_note=_BUF_NOTE,
     stages=[corr_stage("BUFK1", 4000, 8000, feature=feat_buf("C01"), seeds=3),
             corr_stage("C01BIG", 6, 60, validate=False),
@@ -378,7 +378,7 @@ PROPS["C03"] = dict(
                "source on every run (harness/cmd/gotr -> coq/Gen/ImplCleaners.v, a deep embedding of the Go fragment with an interpreter) and proved equal "
                "to the model functions for every input (C03_*_source_is_model); plus exhaustive small-domain + seeded differential run of the Go "
                "functions, and Buffer histories under FixedBufferCleaner."
-               " Added (DESIGN 5b): the cleaner functions are translated from the current source and proved equal to the model; consumers at or beyond a trim are unaffected; run theorems for arbitrary cleaners.",
+               " Added (DESIGN 5b): the cleaner functions are translated from the current source and proved equal to the model; consumers at or beyond a trim are unaffected; run theorems for arbitrary cleaners. Buffer.cleanupLogic and consumerOffsets are translated too and proved equal to clean_with for every order-independent cleaner and every map iteration order (C03_cleanup/consumer_offsets_source_*).",
     level_note=_BUF_NOTE,
     rule="pure cleaners: EXHAUSTIVE over size 0..6 x offset lists of length <= L over -2..8 (L=3 quick, 4 thorough), fixed cleaner over "
          "max,target in -1..8 x size 0..8 x 6 offset lists, plus seeded large values; Go result must equal the model. non-trivial = "
@@ -600,7 +600,7 @@ PROPS["C18"] = dict(
                "j*rate with 0 <= j <= 2^min(k,31)-1 (uint32/int64 wraps explicit, vacuous under the cap 31), default rate, wait cut by cancellation; five "
                "refuted variants. Tie: K1 through the repository's own seams (waitDuration, calcExponentialRetry), the real calcExponentialRetry sampled for "
                "c in 0..40 with an exact twin generator, real waitDuration under monitors, constants compared at run time."
-               " Added (DESIGN 5b): interleaved non-fatal wrappers ('at any depth' holds for consecutive nesting, refuted beyond), timed wait theorem.",
+               " Added (DESIGN 5b): interleaved non-fatal wrappers ('at any depth' holds for consecutive nesting, refuted beyond), timed wait theorem. Source tie: calcExponentialRetry translated from the current retry.go and proved equal to the model's delay for every duration, counter and random oracle (C18_delay_source_*).",
     level_note="Trusted: Coq kernel, extraction, OCaml glue, Go harness; math/rand.Int63n's range contract is the oracle hypothesis; timers and context are the "
                "Go runtime's; timing monitors use bounds of at least 1 s.",
     rule="C18K1: seeded scripts of 0-40 plain failures then success / fatal depth 1-4 / nothing, rates <= 0 .. 2^32 ns, nil and custom contexts, cancellation "
@@ -661,7 +661,7 @@ PROPS["C08"] = dict(
                "ret + absorbed = registered at arming, word 0 after Send, exactly-once per counted receiver, late registration blocked until unlock, "
                "racing deregistration removes-before-count or absorbs exactly one, deadlock freedom + termination measure; two mutation refutations. "
                "'every later call panics too' is refuted (C08_sticky_refuted, finding F4, known) and replaced by C08_sticky_until_compensated_partial."
-               " Added (DESIGN 5b): word<->protocol bridge along every schedule, Add(+-n) = n unit Adds, late registration over runs and served by a later Send, channel capacity parameter: buffered capacity refuted (known findings F7/F7b), safe regimes proved (69 obligations).",
+               " Added (DESIGN 5b): word<->protocol bridge along every schedule, Add(+-n) = n unit Adds, late registration over runs and served by a later Send, channel capacity parameter: buffered capacity refuted (known findings F7/F7b), safe regimes proved (69 obligations). Step-level tie: C08TRACE, trace acceptance of instrumented runs by the extracted CasterAbs.step with the word carried by CasterBridge.wrun.",
     level_note="PARTIAL on the parenthetical 'every later call panics too' (false of the code: known finding F4). Trusted: hand-written models; "
                "CasterAbs.v abstracts the word to (count, armed) assuming counts far below MaxInt32 (overflow is covered at word level only); "
                "sync.RWMutex writer preference as modelled; protocol theorems are for unbuffered channels; harness logical clock and 2 s hang deadline.",
@@ -746,7 +746,7 @@ PROPS["C17"] = dict(
                "Do blocked during the stop phase then starts a fresh instance; terminal states have everything stopped + decreasing measure; no panic; three refuted "
                "variants. Tie: K1 gated quiescent runs vs extracted kstep oracle, K2 free-running histories linearized vs extracted step, MONITOR lines for overlap / "
                "stop-open-while-held / leak."
-               " Added (DESIGN 5b): progress, drain theorem from every reachable state with a tight bound, parked Do callers as state (no waiter stranded), literal 'held => running' refuted for early-returning functions (28 obligations).",
+               " Added (DESIGN 5b): progress, drain theorem from every reachable state with a tight bound, parked Do callers as state (no waiter stranded), literal 'held => running' refuted for early-returning functions (28 obligations). Step-level tie: C17TRACE, trace acceptance of instrumented runs by the extracted WorkerWait.pstep / Worker.step.",
     level_note="Trusted: Coq kernel, extraction, OCaml glue, Go harness (goroutine-dump quiescence; in-package TryLock peeks at Worker.stop). Assumes the instance "
                "function returns only after seeing stop closed and each done is called at most once.",
     rule="K1: seeded scripts of Do (own goroutine)/done(h)/release-instance/Do(nil), quiescence after each action; vector (Do returned, instances started, saw stop, "
@@ -875,7 +875,7 @@ PROPS["C06"] = dict(
                "all acknowledged, Sends are serialised, zero-subscriber Sends return without delivering; on the tagged extension (whose base is proved to be an abstract "
                "run): the tracked subscription's receipts are a contiguous run of the round order, no duplicate, no stale round, standing subscriptions are included; "
                "refuted without the write lock. Tie: Go monitors + delay-bounded sweep."
-               " Added (DESIGN 5b): every subscriber tracked by index (received by exactly `sent` distinct subscribers), standing => included from an invariant, split atomic steps re-proved (38 theorems).",
+               " Added (DESIGN 5b): every subscriber tracked by index (received by exactly `sent` distinct subscribers), standing => included from an invariant, split atomic steps re-proved (38 theorems). Step-level tie: C06TRACE, trace acceptance of instrumented runs by the extracted PubSubTraceAux.jstep (PubSubSplit.xstep + PubSubIdx bookkeeping, PubSubIter for iterator subscriptions).",
     level_note=_PS_NOTE,
     stages=[_C06_TRACE(),
             corr_stage("C06K2", 4000, 6000, feature=feat_pubsub, seeds=3),
@@ -891,7 +891,7 @@ PROPS["C07"] = dict(
                "returned (deadlock freedom) with a strictly decreasing measure (every run finite, explicit bound), final subscriber count = subscriptions - "
                "unsubscriptions with the caster idle, sanityCheckSubscribersDelta fires iff the int32 arithmetic wrapped or a value is negative (explicit mod 2^32); "
                "refuted when an unsubscribe during delivery is not routed through the caster. Tie: Go monitors + delay-bounded sweep + sanity differential."
-               " Added (DESIGN 5b): SubscribeContext AfterFunc/stop/iterator pairing model (at most one Unsubscribe, exactly one in terminal states after cancel-or-run; ignoring stop() refuted), split-step model (30 theorems).",
+               " Added (DESIGN 5b): SubscribeContext AfterFunc/stop/iterator pairing model (at most one Unsubscribe, exactly one in terminal states after cancel-or-run; ignoring stop() refuted), split-step model (30 theorems). Step-level tie: C06TRACE (as C06). Source tie: sanityCheckSubscribersDelta translated from the current chanpubsub.go and proved equal to the model for all arguments (C07_sanity_source_*).",
     level_note=_PS_NOTE,
     stages=[_C06_TRACE(),
             corr_stage("C06K2", 4000, 6000, feature=feat_pubsub, seeds=3, params={"salt": 7}),
@@ -937,7 +937,7 @@ PROPS["C15"] = dict(
                "empty-key cleanup invisible. Refuted on the same transition function: ref not removed, decrement-before-test; '<' for '<=' in the break "
                "test is proved an EQUIVALENT mutant. Tie: K1 single-ready-case runs of the real PublishContext decided by the extracted run_publish and "
                "spec_publish, registry sequences decided by subscribe/unsubscribe/lookup, SubscribeCancel leak/barrier monitors, concurrent stress monitors."
-               " Added (DESIGN 5b): per-subscriber liveness, prefix form of returns-only-when-served, context-carrying registry, Subscribe/Unsubscribe/Publish interleaving machine under the RWMutex discipline (40 obligations).",
+               " Added (DESIGN 5b): per-subscriber liveness, prefix form of returns-only-when-served, context-carrying registry, Subscribe/Unsubscribe/Publish interleaving machine under the RWMutex discipline (40 obligations). Step-level tie: C15TRACE, trace acceptance of instrumented runs by the extracted NotifierLock.step.",
     level_note="Trusted: Coq kernel, extraction, OCaml adapter, Go harness (quiescence detection makes exactly one select case ready at a time; reflect.Select's "
                "choice among SEVERAL ready cases is not modelled - the theorems hold for every choice); the compat column of each record is a hand-written "
                "table (value kind x element type), not reflect.AssignableTo. The RWMutex (publish under RLock, registry fixed during a publish) is assumed (C11).",
@@ -1005,7 +1005,7 @@ PROPS["C09"] = dict(
                "(ExecStart only when the previous work function has returned: the step form excludes RWork, RWorkRes and RDone), the A.6 invariant, "
                "refutation when resolve clears the successor's running flag; two-key product: each key behaves as the one-key model on its own picks and "
                "no pick of a key is disabled or altered by whatever the other key does. Tie: monitors on implementation histories."
-               " Added (DESIGN 5b): n-key product; map-lock sections checked on the lock/access facts translated from the current exclusive.go.",
+               " Added (DESIGN 5b): n-key product; map-lock sections checked on the lock/access facts translated from the current exclusive.go. Step-level tie: C09TRACE, trace acceptance of instrumented runs by the extracted ExclusiveVal.vstep re-checked through ExclusiveAbs.step.",
     level_note=_EXCL_NOTE,
     stages=_EXCL_STAGES(),
 )
@@ -1022,7 +1022,7 @@ PROPS["C10"] = dict(
                "call's first step; answered <= issued always and = issued in terminal states, nothing in flight, key not in the map (forced resolve "
                "included); every run terminates and a terminal state is reachable from every state; every call of either style is followed by an "
                "ExecStart on every completed continuation; executions <= calls; refuted without the forced resolve and with an unconditional escape hatch."
-               " Added (DESIGN 5b): result values and supplier identity in the model (ExclusiveVal): coalesced callers receive the identical outcome of an execution begun after their call; the executed function is the last attacher's; unresolved work => error to every caller; k tracked calls.",
+               " Added (DESIGN 5b): result values and supplier identity in the model (ExclusiveVal): coalesced callers receive the identical outcome of an execution begun after their call; the executed function is the last attacher's; unresolved work => error to every caller; k tracked calls. Step-level tie: C09TRACE (as C09).",
     level_note=_EXCL_NOTE + " Result and function identity of coalesced callers are proved on Model/ExclusiveVal.v (same protocol steps, k tracked calls, "
                "result values, attach numbers); that model is tied to the code through the base model it reuses step for step.",
     stages=_EXCL_STAGES() + [corr_stage("C10ASYNC", 1500, 20000, validate=False)],
